@@ -200,9 +200,16 @@ func c19UfsPipelineScenario(msize uint32, piece int, dotu bool, D int) Scenario 
 
 // (f) the Unix file server told to export a path that goes through a symbolic link:
 // two connections send their first Tattach at the same time, then work on their own fids
-func c19UfsSymlinkedRoot(dotu bool, D int) Scenario {
+func c19UfsSymlinkedRoot(dotu bool, D int) Scenario { return c19UfsSpelledRoot("", dotu, D) }
+
+// spelling: appended to the root the server is told to export (a trailing or doubled
+// slash, a "." element: the same directory, not spelled canonically)
+func c19UfsSpelledRoot(spelling string, dotu bool, D int) Scenario {
 	var root, base string
 	name := fmt.Sprintf("ufs-symlinked-root two first attaches dotu=%v", dotu)
+	if spelling != "" {
+		name = fmt.Sprintf("ufs-symlinked-root spelled +%q two first attaches dotu=%v", spelling, dotu)
+	}
 	body := func() {
 		vs.EnableHB()
 		os.RemoveAll(root)
@@ -211,7 +218,7 @@ func c19UfsSymlinkedRoot(dotu bool, D int) Scenario {
 		link := filepath.Join(base, "export-link")
 		os.Remove(link)
 		os.Symlink(root, link)
-		h := newUfsH(link, 8216, dotu)
+		h := newUfsH(link+spelling, 8216, dotu)
 		ver := "9P2000"
 		if dotu {
 			ver = "9P2000.u"
@@ -354,6 +361,7 @@ func c19Scenarios(tier string) []Scenario {
 	}
 	out = append(out, c19UfsScenario(3, true, D), c19ClientScenario(3, false, D))
 	out = append(out, c19UfsSymlinkedRoot(false, D), c19UfsSymlinkedRoot(true, D))
+	out = append(out, c19UfsSpelledRoot("/", true, D), c19UfsSpelledRoot("//./", false, D))
 	out = append(out, c19UfsPipelineScenario(64, 0, false, D), c19UfsPipelineScenario(64, 33, true, D), c19UfsPipelineScenario(96, 0, true, D))
 	sort.Slice(out, func(i, j int) bool { return out[i].Name < out[j].Name })
 	return out
